@@ -5,6 +5,7 @@ import MW.Model.Secrets
 import MW.Model.Sign
 import MW.Drv.Vm
 import MW.Model.KsBytes
+import MW.Model.SignTab
 import MW.Model.TxLoc
 namespace MW.Drv.Sec
 open MW MW.Model
@@ -73,12 +74,7 @@ def symEngine : Sign.Engine symCrypto String where
     simp [hc, hs, hq]
     simpa using hv
 
-def clsOf : Ledger.Cls → Sign.Class
-  | .std => .std
-  | .stk f => .stk f
-  | .bindOld _ => .bind
-  | .bindNew _ => .bind
-  | .raw => .other
+abbrev clsOf : Ledger.Cls → Sign.Class := SignTab.clsOf
 
 open Ledger in
 /-- existsMsgTx / existsUnminedTx / index check / existsOutPoint of signWitnessTx, on the ledger model; `len` = encoded
@@ -134,7 +130,7 @@ def envOf (l : Led.St) (len : Ledger.Tx → Nat) (w : String) (pass : String) : 
   skOf := fun a => match AMap.get l.own a with | some (w', _) => if w' = w then some a else none | none => none
   params := pass
 
-def toSignTx (t : Ledger.Tx) : Sign.Tx (Sign.Witness symCrypto) :=
+def toSignTx {C : Sign.Crypto} (t : Ledger.Tx) : Sign.Tx (Sign.Witness C) :=
   { version := 1, lock := 0, payload := t.id,
     ins := t.ins.map (fun i => { prev := ⟨i.tx, i.idx⟩, seq := i.seq, wit := none }),
     outs := t.outs.map (fun o => ⟨o.amt, o.addr⟩) }
@@ -150,14 +146,17 @@ def specSign (st : St) (w pass flag : String) (t : Ledger.Tx) : Option String :=
   match AMap.get st.ks.wal w, Sign.parseFlag flag with
   | some (r, _), some fl =>
     let coins := Spec.Chain.coinsOfWallet (Spec.Chain.ledgerOf st.led.own st.led.specChain) w
+    -- a binding output whose transaction sits at / will be mined at a height ≥ the MASSIP-2 warm-up height is spent under
+    -- the engine-level sequence rule (class `bind2`)
+    let up (c : Sign.Class) (h : Nat) : Sign.Class := c.atHeight st.led.warm h
     let clsOfIn (i : Ledger.Inp) : Option Sign.Class :=
       match coins.find? (fun c => c.tx = i.tx && c.idx = i.idx) with
-      | some c => some (clsOf c.cls)
+      | some c => some (up (clsOf c.cls) c.height)
       | none =>
         match AMap.get st.led.store.pending i.tx with
         | some pt => match pt.outs[i.idx]? with
           | some o => match AMap.get st.led.own o.addr with
-            | some (w', _) => if w' = w && o.cls ≠ .raw then some (clsOf o.cls) else none
+            | some (w', _) => if w' = w && o.cls ≠ .raw then some (up (clsOf o.cls) st.led.specChain.length) else none
             | none => none
           | none => none
         | none => none
@@ -171,6 +170,100 @@ def specSign (st : St) (w pass flag : String) (t : Ledger.Tx) : Option String :=
       some (if pass = r.pass then "ok" else "err:pass")
     else none
   | _, _ => none
+
+-- ------------------------------------------------------------------ signing with the script VM model (oracle tokens)
+
+open Ledger in
+/-- `prevHeight` of signWitnessTx: the height of the block the previous transaction is mined in (the BlockMeta existsMsgTx
+    returns), else SyncedTo + 1 ("it can only be mined above the tip") -/
+def prevHeight (l : Led.St) (len : Ledger.Tx → Nat) (w : String) (op : Sign.OutPoint) : Nat :=
+  let s := l.store
+  let cred : Option CredKey :=
+    match AMap.get s.unspent (w, op.tx, op.idx) with
+    | some blk => some ⟨op.tx, blk, op.idx⟩
+    | none => (s.credits.find? (fun e => e.1.tx = op.tx && e.1.idx = op.idx)).map (·.1)
+  let mined : Option Nat :=
+    match cred with
+    | some ck =>
+      match AMap.get s.txrecs (op.tx, ck.blk) with
+      | some loc => match l.node.txAtLoc len ck.blk.height loc with
+        | some t => if t.id = op.tx then some ck.blk.height else none
+        | none => none
+      | none => none
+    | none => none
+  match mined with
+  | some h => h
+  | none => s.syncedTo + 1
+
+/-- the wallet as signWitnessTx sees it, over real bytes: script hashes and keys from the oracle table; a binding output
+    whose previous height has reached the warm-up height is run under ScriptMASSip2 (class `bind2`) -/
+def envVm (T : SignTab.Tab) (l : Led.St) (w pass : String) (warm : Nat) : Sign.Env (SignTab.tabCrypto T) Bytes where
+  resolve := fun op =>
+    match resolve l (Led.lenOf l.shape) w op with
+    | .error e => .error e
+    | .ok po =>
+      .ok ⟨po.amt, po.cls.atHeight warm (prevHeight l (Led.lenOf l.shape) w op), SignTab.shOf T po.addr⟩
+  pubOf := fun h =>
+    match SignTab.keyOf T h with
+    | some (a, k) => (match AMap.get l.own a with | some (w', _) => if w' = w then some k else none | none => none)
+    | none => none
+  skOf := fun h =>
+    match SignTab.keyOf T h with
+    | some (a, k) => (match AMap.get l.own a with | some (w', _) => if w' = w then some k else none | none => none)
+    | none => none
+  params := pass
+
+/-- the symbolic environment (token-less `sign` lines) with the same class lifting: a binding output whose previous height
+    has reached the warm-up height carries the MASSIP-2 sequence rule (`seqOk .bind2`) -/
+def envSym (l : Led.St) (w pass : String) : Sign.Env symCrypto String :=
+  let e := envOf l (Led.lenOf l.shape) w pass
+  { e with resolve := fun op =>
+      match e.resolve op with
+      | .error err => .error err
+      | .ok po => .ok { po with cls := po.cls.atHeight l.warm (prevHeight l (Led.lenOf l.shape) w op) } }
+
+/-- `signTx` with the script VM model as the engine (`vmEngine (tabCodec T)`): the witness the model builds
+    (signature ‖ hash-type byte, redeem script) is run through `ScriptVM.verify` for every input -/
+def signVm (st : St) (w rpass p : String) (fl : Sign.Flag) (tx : Ledger.Tx) (toks : List String) : String :=
+  match SignTab.parseToks toks with
+  | none => "bad-op"
+  | some T =>
+    match T.bad with
+    | why :: _ => "oracle:" ++ why
+    | [] =>
+      match (Sign.signTx (SignTab.tabEngine T) (envVm T st.led w rpass st.led.warm) (Sign.Lock.locked _) p fl (toSignTx tx)).2 with
+      | .ok tx' =>
+        -- the witnesses the model built (and ran through the VM) are, byte for byte, those of the real signed transaction
+        (match SignTab.witnessDiff T tx'.ins with
+         | none => "ok"
+         | some i => s!"ok!witness@{i}")
+      | .error e => errTok e
+
+/-- `autosign` with oracle tokens: the transaction the REAL wallet built (token `t=<#outputs>=<inputs>`, symbolic names)
+    is signed by the model with the VM engine; the answer is compared with what the op must give (the rule the harness
+    applies to the real result): invalid flag ⇒ err:flag, wrong passphrase ⇒ err:pass, SIGHASH_SINGLE with more inputs
+    than outputs ⇒ err:script, else ok -/
+def autoVm (st : St) (w p flag : String) (toks : List String) : Option String :=
+  match toks with
+  | t :: rest =>
+    match t.splitOn "=", AMap.get st.ks.wal w with
+    | ["t", nOut, ins], some (r, _) =>
+      match nOut.toNat?, (Led.parseList ins).mapM Led.parseIn with
+      | some n, some is =>
+        let tx : Ledger.Tx := { id := "auto", cb := false, ins := is, outs := List.replicate n ⟨"X", 1, .std⟩ }
+        let fl := Sign.parseFlag flag
+        let want := match fl with
+          | none => "err:flag"
+          | some f =>
+            if p ≠ r.pass then "err:pass"
+            else if f.base = .single ∧ is.length > n then "err:script" else "ok"
+        let got := match fl with
+          | none => "err:flag"
+          | some f => signVm st w r.pass p f tx rest
+        some (if got = want then "pass" else "FAIL:" ++ got ++ "-want-" ++ want)
+      | _, _ => none
+    | _, _ => none
+  | [] => none
 
 def gateSpec (st : St) (w pass : String) : Option String :=
   match AMap.get st.ks.wal w with
@@ -372,7 +465,7 @@ def step (st : St) (args : List String) : St × String :=
     let m := Led.joinSorted ((treeEntries st.tree names).map (fun e => layoutItem names e.1 e.2.1 e.2.2))
     (st, (if st.treeOk then m else "err-tree") ++ "\t" ++ sp)
   | ["kscan"] => (st, (if Secrets.scanClean st.ks then "clean" else "LEAK") ++ "\tclean")
-  | ["sign", w, p, flag, t] =>
+  | "sign" :: w :: p :: flag :: t :: toks =>
     match AMap.get st.led.txs t with
     | none => (st, "bad-op")
     | some tx =>
@@ -384,9 +477,12 @@ def step (st : St) (args : List String) : St × String :=
         | none => (st, withSpec "err:flag" sp)
         | some fl =>
           -- SignRawTx ends with ClearPrivKey: every keystore is locked again
-          let res := (Sign.signTx symEngine (envOf st.led (Led.lenOf st.led.shape) w r.pass) (Sign.Lock.locked symCrypto) p fl (toSignTx tx)).2
           let ks := { st.ks with wal := Secrets.clearAll st.ks.wal }
-          let m := match res with | .ok _ => "ok" | .error e => errTok e
+          -- with oracle tokens: the script VM model over real bytes; without (corpus lines): the symbolic engine
+          let m := if toks.isEmpty then
+              (match (Sign.signTx symEngine (envSym st.led w r.pass) (Sign.Lock.locked symCrypto) p fl (toSignTx tx)).2 with
+               | .ok _ => "ok" | .error e => errTok e)
+            else signVm st w r.pass p fl tx toks
           ({ st with ks := ks }, withSpec m sp)
   | ["tx", _, _, _, outs] =>
     -- the harness refuses an output to an address it has never bound (owned A*; strangers X* are implicit)
@@ -407,6 +503,13 @@ def step (st : St) (args : List String) : St × String :=
         | none => st.led.shape
       ({ st with led := { st.led with shape := shape } }, "ok")
     | _, _ => (st, "bad-op")
+  | "autosign" :: w :: p :: flag :: rest =>
+    -- oracle tokens (if any) follow the must|may word
+    let toks := (rest.dropWhile (fun s => s != "must" && s != "may")).drop 1
+    if toks.isEmpty then (st, "pass\tpass") else
+    match autoVm st w p flag toks with
+    | some m => ({ st with ks := { st.ks with wal := Secrets.clearAll st.ks.wal } }, m ++ "\tpass")
+    | none => (st, "bad-op")
   | "autosign" :: _ => (st, "pass\tpass")
   | _ =>
     let (l, o) := Led.step st.led args
